@@ -848,6 +848,11 @@ func (env *specEnv) evalCall(x SCall) (Val, types.Type) {
 	case "sqrt":
 		a, _ := arg(0)
 		return vc.sqrtTerm(nil, a), tFloat
+	case "feq":
+		// Go's == on float64 (IEEE: NaN unequal to itself, -0 == +0); the spec's == is identity
+		a, _ := arg(0)
+		b, _ := arg(1)
+		return vc.floatBin(token.EQL, vc.toFloat(a), vc.toFloat(b)), tBool
 	case "streq":
 		// Go string equality (contents)
 		a, _ := arg(0)
